@@ -141,7 +141,7 @@ func v28Payload(tag uint64, extra int) []byte {
 
 type v28Obs struct {
 	conns, reconnects, dropRecords, droppedEvents, delivered, followupsDelivered, parkedEmits, closeRaces, dialFailures int
-	invalid, cleanEnds                                                                                              int
+	invalid, cleanEnds, emptyDelivered                                                                              int
 }
 
 // v28Scenario runs one scenario and returns a violation description ("" = held) with details.
@@ -198,6 +198,8 @@ func v28Scenario(r vh.R, obs *v28Obs) (string, map[string]any) {
 	}
 
 	var lastID atomic.Uint64 // a recent valid ID of any emitter (parent candidate across emitters)
+	var emptyMu sync.Mutex
+	emptyIDs := map[uint64]uint8{} // IDs handed out for payload-less events -> discriminator
 	recs := make([][]v28Rec, emitters)
 	var wg sync.WaitGroup
 	var emitting atomic.Int64
@@ -218,6 +220,31 @@ func v28Scenario(r vh.R, obs *v28Obs) (string, map[string]any) {
 				rec := v28Rec{tag: tag}
 				pl := v28Payload(tag, er.IntN(24))
 				emitting.Add(1)
+				if er.IntN(10) == 0 {
+					// an event without payload: a lazy builder that returns nil or an empty slice, or an eager nil / empty payload. It still
+					// has an ID, so it still has to occupy one position of the stream (a header-only frame, or a Dropped record).
+					var id uint64
+					disc := uint8(251 + er.IntN(4))
+					switch disc {
+					case 251:
+						id = cli.EmitLazy(disc, func() []byte { return nil })
+					case 252:
+						id = cli.Emit(disc, nil)
+					case 253:
+						id = cli.EmitLazy(disc, func() []byte { return []byte{} })
+					default:
+						id = cli.Emit(disc, []byte{})
+					}
+					emitting.Add(-1)
+					if id != InvalidID {
+						emptyMu.Lock()
+						emptyIDs[id] = disc
+						emptyMu.Unlock()
+						own = id
+						lastID.Store(id)
+					}
+					continue
+				}
 				switch er.IntN(6) {
 				case 0:
 					rec.id = cli.EmitLazy(uint8(1+er.IntN(200)), func() []byte { return pl })
@@ -419,6 +446,29 @@ func v28Scenario(r vh.R, obs *v28Obs) (string, map[string]any) {
 			if disc == 250 { // the stall burst: not tracked per tag
 				counter++
 				obs.delivered++
+				continue
+			}
+			if disc >= 251 && disc <= 254 { // payload-less event: identified by its position alone
+				if len(body) != 0 {
+					return "a payload-less event arrived with a payload", d
+				}
+				found := false
+				for id, dd := range emptyIDs {
+					if eventIDSeq(id) == counter && dd == disc && (connEpoch == 0 || eventIDEpoch(id) == connEpoch) {
+						found = true
+						if connEpoch != 0 { // (before the connection's epoch is known the match is by position and kind only)
+							delete(emptyIDs, id)
+						}
+						break
+					}
+				}
+				d["receiver_implicit_id"], d["disc"] = counter, disc
+				if !found {
+					return "alignment: a payload-less event arrived at a position whose ID no emitter of such an event was given", d
+				}
+				counter++
+				obs.delivered++
+				obs.emptyDelivered++
 				continue
 			}
 			if len(body) < 8 {
@@ -649,6 +699,7 @@ func TestVerifC28(t *testing.T) {
 		h.Count("events_delivered", int64(obs.delivered))
 		h.Count("followups_delivered", int64(obs.followupsDelivered))
 		h.Count("emits_returned_while_write_stalled", int64(obs.parkedEmits))
+		h.Count("payloadless_events_delivered", int64(obs.emptyDelivered))
 		h.Count("close_racing_with_emitters", int64(obs.closeRaces))
 		h.Count("dial_failures", int64(obs.dialFailures))
 		h.Count("emits_refused_invalid_id", int64(obs.invalid))
